@@ -800,6 +800,14 @@ func (x *microCtx) afterRestart() {
 		w2.Sleep(600 * time.Millisecond)
 	}
 	finished := x.m1 != "" && x.finOK[x.m1]
+	// sends whose frame never appeared: a delivery pump had taken a message off the queue
+	// when the shutdown hit (the window nsqd's own comments acknowledge); each of them can
+	// explain at most one lost message
+	seenWin := 0
+	for k, as := range x.deliv {
+		seenWin += len(as) - x.preWin[k]
+	}
+	unseen := int(x.totalSends()-x.sendsPre) - seenWin
 	for _, body := range []string{"m1", "m2"} {
 		if x.spec.State == "none" {
 			break
@@ -809,14 +817,9 @@ func (x *microCtx) afterRestart() {
 			continue // a FIN overlapping the shutdown may go either way
 		}
 		if len(got) == 0 {
-			// a send whose frame never appeared: a delivery pump had taken a message off the
-			// queue when the shutdown hit (the window nsqd's own comments acknowledge)
-			seenWin := 0
-			for k, as := range x.deliv {
-				seenWin += len(as) - x.preWin[k]
-			}
-			if int(x.totalSends()-x.sendsPre) > seenWin {
-				x.bad("C05 message in the hands of a delivery pump lost by a graceful shutdown", "%s (attempts before the shutdown: %d) was taken off the queue by a consumer's pump while Exit was flushing the channel and was not delivered after the restart; delivered: %v", body, before[body], x.afterRst)
+			if unseen > 0 {
+				unseen--
+				x.bad("C05 message in the hands of a delivery pump lost by a graceful shutdown", "%s (attempts before the shutdown: %d) was not delivered after the restart, and a consumer's pump had taken a message off the queue while Exit was flushing the channel; delivered: %v", body, before[body], x.afterRst)
 				continue
 			}
 			x.bad("C05 unfinished message lost by a graceful shutdown", "%s (attempts before the shutdown: %d) was not delivered after the restart; delivered: %v", body, before[body], x.afterRst)
